@@ -6,11 +6,29 @@ package distiller
 
 import (
 	"fmt"
+	"html"
 	"regexp"
 	"strings"
 	"testing"
 	"unicode/utf8"
+
+	xhtml "golang.org/x/net/html"
 )
+
+func govcC15NodeText(n *xhtml.Node) string {
+	var sb strings.Builder
+	var walk func(*xhtml.Node)
+	walk = func(x *xhtml.Node) {
+		if x.Type == xhtml.TextNode {
+			sb.WriteString(x.Data)
+		}
+		for c := x.FirstChild; c != nil; c = c.NextSibling {
+			walk(c)
+		}
+	}
+	walk(n)
+	return sb.String()
+}
 
 var govcTitleBody = strings.Repeat("<p>"+strings.Repeat("lorem ipsum dolor sit amet consectetur adipiscing elit sed do eiusmod tempor ", 4)+"</p>", 3)
 
@@ -44,76 +62,156 @@ func TestGovcTitleReplay(t *testing.T) {
 	headings := []struct{ key string }{{"same"}, {"split"}, {"other"}, {"none"}}
 	noSpace := func(s string) string { return strings.Join(strings.Fields(s), "") }
 	evals, nontrivial := 0, 0
-	for _, tc := range titles {
-		for _, hd := range headings {
-			for _, withMeta := range []bool{false, true} {
-				h1 := ""
-				switch hd.key {
-				case "same":
-					h1 = "<h1>" + tc.text + "</h1>"
-				case "split":
-					// the same text with its first letter in an inline element (one word, two text nodes)
-					if tc.text != "" {
-						_, n := utf8.DecodeRuneInString(tc.text)
-						h1 = "<h1><b>" + tc.text[:n] + "</b>" + tc.text[n:] + "</h1>"
-					}
-				case "other":
-					h1 = "<h1>Completely different heading text here</h1>"
-				}
-				meta := ""
-				if withMeta {
-					meta = `<meta property="og:title" content="Markup supplied headline"><meta property="og:type" content="article"><meta property="og:url" content="http://example.com/a"><meta property="og:image" content="http://example.com/i.png">`
-				}
-				src := `<html><head><title>` + tc.text + `</title>` + meta + `</head><body><div id="main">` + h1 + govcTitleBody + `</div></body></html>`
-				key := fmt.Sprintf("%s/h1-%s/meta-%v", tc.key, hd.key, withMeta)
-				res, err := ApplyForReader(strings.NewReader(src), nil)
-				evals++
-				if err != nil {
-					t.Errorf("GOVC-FAIL %s :: title case returned error %v", key, err)
-					continue
-				}
-				if tc.text != "" {
-					nontrivial++
-				}
-				if evals <= 3 {
-					fmt.Printf("GOVC-SAMPLE title %q h1=%s meta=%v -> Title=%q\n", tc.text, hd.key, withMeta, res.Title)
-				}
-				got := res.Title
-				// (1) markup title wins
-				if withMeta && res.MarkupInfo.Title != "" {
-					if got != res.MarkupInfo.Title {
-						t.Errorf("GOVC-FAIL %s/markup :: title %q differs from the markup title %q", key, got, res.MarkupInfo.Title)
-					}
-				} else {
-					// (2) never invented: <title>, a contiguous part of it, or the first h1
-					h1text := ""
-					if hd.key == "same" || hd.key == "split" {
-						h1text = tc.text
-					} else if hd.key == "other" {
-						h1text = "Completely different heading text here"
-					}
-					norm := govcNormSpace(got)
-					// (the h1 text is compared modulo white space: domutil.InnerText, the visible-text
-					// rendering of this code base, separates the text nodes of inline children by blanks)
-					if got != "" && !strings.Contains(govcNormSpace(tc.text), norm) && noSpace(norm) != noSpace(h1text) {
-						t.Errorf("GOVC-FAIL %s/invented :: title %q is neither part of <title> %q nor the h1 %q", key, got, tc.text, h1text)
-					}
-					// (3) exact when 15..150 characters and no separator pattern
-					n := utf8.RuneCountInString(tc.text)
-					if n >= 15 && n <= 150 && !govcRxTitleSep.MatchString(tc.text) && !strings.Contains(tc.text, ": ") {
-						if govcNormSpace(got) != govcNormSpace(tc.text) {
-							t.Errorf("GOVC-FAIL %s/exact :: title %q is not the <title> text %q (%d characters, no separator)", key, got, tc.text, n)
-						}
-					}
-				}
-				// (4) a block whose text is the title is not emitted again in the content
-				if (hd.key == "same" || hd.key == "split") && tc.text != "" && got != "" && govcNormSpace(got) == govcNormSpace(tc.text) {
-					if strings.Contains(noSpace(res.Text), noSpace(tc.text)) {
-						t.Errorf("GOVC-FAIL %s/repeated :: the title %q is repeated in the distilled text", key, got)
-					}
+	repeatChecked := 0
+	// eval runs one page: <title> text, heading markup (h1 is its text, "" when there is none) and markup metas.
+	eval := func(key, title, h1HTML, h1text, meta string) {
+		src := `<html><head><title>` + title + `</title>` + meta + `</head><body><div id="main">` + h1HTML + govcTitleBody + `</div></body></html>`
+		res, err := ApplyForReader(strings.NewReader(src), nil)
+		evals++
+		if err != nil {
+			t.Errorf("GOVC-FAIL %s :: title case returned error %v", key, err)
+			return
+		}
+		if title != "" {
+			nontrivial++
+		}
+		// dom.Parse (third-party input layer of ApplyForReader) drops soft hyphens while decoding the page, so
+		// the document the distiller sees does not contain them: expectations are formed on the parsed text
+		title, h1text = strings.ReplaceAll(title, "\u00ad", ""), strings.ReplaceAll(h1text, "\u00ad", "")
+		if evals <= 3 {
+			fmt.Printf("GOVC-SAMPLE title %q h1=%q meta=%v -> Title=%q\n", title, h1text, meta != "", res.Title)
+		}
+		got := res.Title
+		// (1) markup title wins
+		if meta != "" && res.MarkupInfo.Title != "" {
+			if got != res.MarkupInfo.Title {
+				t.Errorf("GOVC-FAIL %s/markup :: title %q differs from the markup title %q", key, got, res.MarkupInfo.Title)
+			}
+		} else {
+			// (2) never invented: <title>, a contiguous part of it, or the first h1
+			norm := govcNormSpace(got)
+			// (the h1 text is compared modulo white space: domutil.InnerText, the visible-text
+			// rendering of this code base, separates the text nodes of inline children by blanks)
+			if got != "" && !strings.Contains(govcNormSpace(title), norm) && noSpace(norm) != noSpace(h1text) {
+				t.Errorf("GOVC-FAIL %s/invented :: title %q is neither part of <title> %q nor the h1 %q", key, got, title, h1text)
+			}
+			// (3) exact when 15..150 characters and no separator pattern
+			n := utf8.RuneCountInString(title)
+			if n >= 15 && n <= 150 && !govcRxTitleSep.MatchString(title) && !strings.Contains(title, ": ") {
+				if govcNormSpace(got) != govcNormSpace(title) {
+					t.Errorf("GOVC-FAIL %s/exact :: title %q is not the <title> text %q (%d characters, no separator)", key, got, title, n)
 				}
 			}
 		}
+		// (4) a block whose text is the title is not emitted again in the content: applies when the heading
+		// is, character for character (modulo white-space normalisation), the title that was chosen
+		if h1text != "" && got != "" && govcNormSpace(got) == govcNormSpace(h1text) {
+			repeatChecked++
+			if strings.Contains(noSpace(res.Text), noSpace(h1text)) {
+				t.Errorf("GOVC-FAIL %s/repeated :: the title %q is repeated in the distilled text", key, got)
+			}
+			if res.Node != nil && strings.Contains(noSpace(govcC15NodeText(res.Node)), noSpace(h1text)) {
+				t.Errorf("GOVC-FAIL %s/repeated-html :: the title %q is repeated in the text nodes of Result.Node", key, got)
+			}
+		}
 	}
-	fmt.Printf("GOVC-CASES evaluations=%d distinct_nontrivial=%d rule=%s\n", evals, nontrivial, "16 title shapes x {h1 same, same with split first word, other, none} x {with, without og:title}; distinct by construction; non-trivial = non-empty <title>")
+	ogMeta := func(ogTitle string) string {
+		return `<meta property="og:title" content="` + ogTitle + `"><meta property="og:type" content="article"><meta property="og:url" content="http://example.com/a"><meta property="og:image" content="http://example.com/i.png">`
+	}
+	splitFirst := func(text string) string { // the same text with its first letter in an inline element (one word, two text nodes)
+		if text == "" {
+			return ""
+		}
+		_, n := utf8.DecodeRuneInString(text)
+		return "<h1><b>" + text[:n] + "</b>" + text[n:] + "</h1>"
+	}
+	for _, tc := range titles {
+		for _, hd := range headings {
+			for _, withMeta := range []bool{false, true} {
+				h1, h1text := "", ""
+				switch hd.key {
+				case "same":
+					h1, h1text = "<h1>"+tc.text+"</h1>", tc.text
+				case "split":
+					h1, h1text = splitFirst(tc.text), tc.text
+				case "other":
+					h1, h1text = "<h1>Completely different heading text here</h1>", "Completely different heading text here"
+				}
+				meta := ""
+				if withMeta {
+					meta = ogMeta("Markup supplied headline")
+				}
+				eval(fmt.Sprintf("%s/h1-%s/meta-%v", tc.key, hd.key, withMeta), tc.text, h1, h1text, meta)
+			}
+		}
+	}
+
+	// ---- typographic characters in titles and headings (appended; the keys above are unchanged) ----
+	typo := []struct{ key, text string }{
+		{"apos-right", "Why Europe\u2019s night trains are coming back"},
+		{"apos-left-right", "The \u2018quiet\u2019 revolution in city planning goes on"},
+		{"apos-modifier", "O\u02bbahu and Hawai\u02bci surfers welcome the winter swell"},
+		{"apos-ascii-multi", "Don't say it isn't so when the fox's back"},
+		{"apos-mixed", "Don\u2019t tell me it isn't the fox\u2018s or the dog\u02bcs fault"},
+		{"apos-elision", "L\u2019\u00e9t\u00e9 \u00e0 l\u2019\u00eele d\u2019Ol\u00e9ron s\u2019annonce tr\u00e8s chaud"},
+		{"apos-leading", "\u2019Tis the season for rock \u2019n\u2019 roll revivals"},
+		{"dquotes", "\u201cQuiet quitting\u201d is not what you think it is"},
+		{"low-quotes", "\u201eStille K\u00fcndigung\u201c ist nicht was man denkt"},
+		{"guillemets", "\u00ab Le monde \u00bb change plus vite que pr\u00e9vu"},
+		{"en-dash", "Markets rally \u2013 investors cheer the latest news"},
+		{"em-dash", "Markets rally \u2014 investors cheer the latest news"},
+		{"em-dash-tight", "Markets rally\u2014investors cheer the latest news today"},
+		{"ellipsis", "And then there were none\u2026 or were there more"},
+		{"nbsp", "Budget vote\u00a0today in the\u00a0senate chamber at 10\u00a0am"},
+		{"soft-hyphen", "Donau\u00addampf\u00adschiff\u00adfahrt startet fr\u00fch in die neue Saison"},
+		{"accents-apos", "Caf\u00e9 M\u00fcller\u2019s cr\u00e8me br\u00fbl\u00e9e na\u00efvet\u00e9 d\u00e9j\u00e0 vu"},
+		{"prime-backtick", "Rock `n\u00b4 roll at 5\u2032 10\u2033 above the old stage"},
+		{"typo-pipe-site", "Europe\u2019s night trains are finally coming back | Example Times"},
+		{"typo-dash-site", "\u201cQuiet quitting\u201d isn\u2019t what you think - Example Times"},
+	}
+	aposLike := strings.NewReplacer("\u2018", "'", "\u2019", "'", "\u02bc", "'", "\u02bb", "'", "\u00b4", "'", "`", "'", "\u2032", "'")
+	toRight := strings.NewReplacer("'", "\u2019", "\u2018", "\u2019", "\u02bc", "\u2019", "\u02bb", "\u2019")
+	strip := strings.NewReplacer("'", "", "\u2018", "", "\u2019", "", "\u02bc", "", "\u02bb", "")
+	asciiAll := strings.NewReplacer("\u2018", "'", "\u2019", "'", "\u02bc", "'", "\u02bb", "'", "\u201c", "\"", "\u201d", "\"", "\u201e", "\"",
+		"\u2013", "-", "\u2014", "-", "\u2026", "...", "\u00a0", " ", "\u00ad", "")
+	for _, tc := range typo {
+		// heading kinds: the existing ones plus the title re-typed with other variants of the same characters
+		type hk struct{ key, html, text string }
+		hks := []hk{
+			{"same", "<h1>" + tc.text + "</h1>", tc.text},
+			{"split", splitFirst(tc.text), tc.text},
+			{"other", "<h1>Completely different heading text here</h1>", "Completely different heading text here"},
+			{"none", "", ""},
+			{"same-in-link", "<h1><a href=\"/story\">" + tc.text + "</a></h1>", tc.text},
+		}
+		for _, v := range []struct {
+			key string
+			r   *strings.Replacer
+		}{{"ascii-apos", aposLike}, {"right-apos", toRight}, {"no-apos", strip}, {"ascii-all", asciiAll}} {
+			alt := v.r.Replace(tc.text)
+			dup := false
+			for _, h := range hks {
+				if h.text == alt {
+					dup = true
+				}
+			}
+			if !dup {
+				hks = append(hks, hk{v.key, "<h1>" + html.EscapeString(alt) + "</h1>", alt})
+			}
+		}
+		metas := []struct{ key, meta string }{
+			{"none", ""},
+			{"fixed", ogMeta("Markup supplied headline")},
+			{"same", ogMeta(html.EscapeString(tc.text))},
+		}
+		if alt := aposLike.Replace(tc.text); alt != tc.text {
+			metas = append(metas, struct{ key, meta string }{"ascii-apos", ogMeta(html.EscapeString(alt))})
+		}
+		for _, h := range hks {
+			for _, m := range metas {
+				eval(fmt.Sprintf("typo-%s/h1-%s/og-%s", tc.key, h.key, m.key), tc.text, h.html, h.text, m.meta)
+			}
+		}
+	}
+	fmt.Printf("GOVC-CASES evaluations=%d distinct_nontrivial=%d rule=%s\n", evals, nontrivial, fmt.Sprintf("16 title shapes x {h1 same, same with split first word, other, none} x {with, without og:title}; plus 20 typographic titles (apostrophe variants U+2018/2019/02BB/02BC/ASCII alone, mixed, leading, elisions; curly/low quotes, guillemets, en/em dash, ellipsis, nbsp, soft hyphen, accents, primes; two with a site suffix) x {h1 same, split, in a link, other, none, re-typed with ASCII / right / no apostrophes / all-ASCII punctuation} x {no og:title, fixed, same text, ASCII-apostrophe variant}; distinct by construction; repetition is only demanded when the heading is character for character the chosen title (checked in Result.Text and Result.Node; measured: %d cases); non-trivial = non-empty <title>", repeatChecked))
 }
